@@ -223,6 +223,27 @@ def c_povm_samples(ctx, args):
     return None
 
 
+def c_state_signs(ctx, args):
+    """sign bits are fair for random STATES of every rank: over 64 draws of random_clifford_state / random_pauli_state (N, r) every tableau row shows both signs
+    (a fair bit misses with probability 2^-63 per row), and every draw is a valid tableau of the requested rank"""
+    kind, N, r, seed = args
+    NP.seed_numba(seed)
+    np.random.seed(seed)
+    f = pc.random_clifford_state if kind == 'clifford' else pc.random_pauli_state
+    seen = [set() for _ in range(2 * N)]
+    for _ in range(64):
+        t = NP.oST(f(N, r) if r is not None else f(N))
+        inv = S.tableau_invariant_py(t)
+        if inv or t[1] != (r or 0):
+            return {'kind': 'oracle', 'where': 'np:random_%s_state(%d, %r) is not a valid tableau of that rank (%s)' % (kind, N, r, inv), 'observed': t, 'expected': 'valid, rank %r' % r, 'tags': ['state_signs']}
+        for j, row in enumerate(t[0]):
+            seen[j].add(row[1] % 4)
+    stuck = [j for j in range(2 * N) if len(seen[j]) < 2]
+    if stuck or any(not v <= {0, 2} for v in seen):
+        return {'kind': 'oracle', 'where': 'np:random_%s_state(%d, %r): tableau rows whose sign never varied in 64 draws' % (kind, N, r), 'observed': stuck, 'expected': 'both signs on every row', 'tags': ['state_signs']}
+    return None
+
+
 def c_chi2(ctx, args):
     """support only: distribution of random_clifford over the symplectic group for N=1 (6 classes) / N=2 (720 classes)"""
     N, nsamp, seed = args
@@ -311,7 +332,7 @@ def c_chi2_rows(ctx, args):
     return None
 
 
-CHECKS = {'povm_samples': c_povm_samples, 'resample_circuit': c_resample_circuit, 'chi2_rows': c_chi2_rows, 'chi2_product': c_chi2_product, 'pair': c_pair, 'clifford': c_clifford, 'maps_states': c_maps_states, 'resample': c_resample, 'chi2': c_chi2, 'coin_fair': __import__('props.C06', fromlist=['c_coin_fair']).c_coin_fair}
+CHECKS = {'state_signs': c_state_signs, 'povm_samples': c_povm_samples, 'resample_circuit': c_resample_circuit, 'chi2_rows': c_chi2_rows, 'chi2_product': c_chi2_product, 'pair': c_pair, 'clifford': c_clifford, 'maps_states': c_maps_states, 'resample': c_resample, 'chi2': c_chi2, 'coin_fair': __import__('props.C06', fromlist=['c_coin_fair']).c_coin_fair}
 
 
 def run(ctx):
@@ -331,6 +352,8 @@ def run(ctx):
         ctx.res.count('%s_%s' % (be, what))
     for it in range(int(20 * B)):
         do(ctx, 'resample', [rng.randint(1, 3), rng.randrange(10 ** 6)], nontrivial=('r', it))
+        Ns = rng.randint(1, 4)
+        do(ctx, 'state_signs', [['clifford', 'pauli'][it % 2], Ns, rng.choice([None, 0] + list(range(1, Ns + 1))), rng.randrange(10 ** 6)], nontrivial=('ss', it))
         Np = rng.randint(1, 4)
         do(ctx, 'povm_samples', [['CliffordCircuit', 'Circuit'][it % 2], Np, [[0, gen.rgate(rng, ctx.model, Np, kinds=('gen', 'fwd', 'named'))] for _ in range(rng.randint(1, 5))], rng.randint(2, 4), it % 3 == 0], nontrivial=('pv', it))
         kind = ['CliffordCircuit', 'Circuit', 'brickwall', 'onsite', 'global'][it % 5]
